@@ -304,7 +304,7 @@ class Conj(Linop):
         with device:
             input = xp.conj(input)
 
-        output = self.A(input)
+        output = self.A.apply(input)
 
         device = backend.get_device(output)
         xp = device.xp
@@ -346,7 +346,7 @@ class Add(Linop):
         output = 0
         with backend.get_device(input):
             for linop in self.linops:
-                output = output + linop(input)
+                output = output + linop.apply(input)
 
         return output
 
@@ -502,7 +502,7 @@ class Hstack(Linop):
                     end = self.indices[n]
 
                 if self.axis is None:
-                    output = output + linop(
+                    output = output + linop.apply(
                         input[start:end].reshape(linop.ishape))
                 else:
                     ndim = len(linop.ishape)
@@ -514,7 +514,7 @@ class Hstack(Linop):
                         + [slice(None)] * (ndim - axis - 1)
                     )
 
-                    output = output + linop(input[slc])
+                    output = output + linop.apply(input[slc])
 
             return output
 
@@ -608,7 +608,7 @@ class Vstack(Linop):
                 else:
                     end = self.indices[n]
 
-                output_n = linop(input)
+                output_n = linop.apply(input)
                 output = _stack_output(xp, output, self.oshape, output_n)
                 if self.axis is None:
                     output[start:end] = output_n.ravel()
@@ -681,7 +681,8 @@ class Diag(Linop):
                     oend = self.oindices[n]
 
                 if self.iaxis is None:
-                    output_n = linop(input[istart:iend].reshape(linop.ishape))
+                    output_n = linop.apply(
+                        input[istart:iend].reshape(linop.ishape))
                 else:
                     ndim = len(linop.ishape)
                     axis = self.iaxis % ndim
@@ -691,7 +692,7 @@ class Diag(Linop):
                         + [slice(None)] * (ndim - axis - 1)
                     )
 
-                    output_n = linop(input[islc])
+                    output_n = linop.apply(input[islc])
 
                 output = _stack_output(xp, output, self.oshape, output_n)
                 if self.oaxis is None:
